@@ -167,7 +167,7 @@ func runC08(c *Check, rng *rand.Rand) {
 		"the in-tree driver (overlaid, nothing written under /repo) only executes; the oracle runs in the harness",
 		"a request whose last byte has arrived must be recognised at that chunk (framing depends only on the bytes received)",
 	}
-	nstreams := c.Pick(50, 3000)
+	nstreams := c.Pick(50, 700)
 	var mu sync.Mutex
 	judge := func(bufsize int, streams [][]byte, in *e3In, out *e3Out) {
 		for si, stream := range streams {
